@@ -1,57 +1,69 @@
 """C06 — aspen replicas converge: same operations, any order, same state."""
 import json
+import random
 import re
 from vlib import cN, cZ, cnat, clist, cbool, coq_print
+import vlib
 
 PID = "C06"
 MODULE, PKG, BIN = "aspen", "./verifh/c06", "c06"
 COQ_IMPORTS = "From Synnax Require Import Common.Base Aspen.KV Monitors.Mon_C06."
 CASE_TYPE = "case_t"
-COUNTS = {"quick": 640, "thorough": 24000}
-SHARD = 80
+COUNTS = {"quick": 480, "thorough": 16000}
+EXTRA_COUNTS = {"quick": 200, "thorough": 6000}
+SHARD = 60
 PROCS = 8
 HARNESS_TIMEOUT = 900
 
-RULE = ("four script families over 2-3 real kv.DB nodes (kv.Open pipelines, memkv engines, mock networks, gossip timer "
-        "off, every message delivered by the script): (A) one coherent operation set (3 keys x leaseholders {4,5,6,7} (nodes outside the driven cluster) x "
-        "versions 1-6, sets and deletes, >=40% with equal-version/different-leaseholder pairs) injected into every node "
-        "in a different order, batching and duplication; (B) cluster life: writes/deletes through DB.Set/Delete (lease "
-        "forwarding, explicit lease options, 15% with two nodes creating the same key), gossip rounds (reply read "
-        "before or after ingestion), payload snapshots delivered late/duplicated/never, feedback delivered in any "
-        "order or lost, restarts, start-up recovery split into high-water read and apply; (C) B followed by fair "
-        "gossip sweeps until quiescence; (D) malformed: versions <= 0, leaseholder 0, incoherent duplicates, unknown "
-        "senders/leaseholders/indices. Non-trivial = a key received >=2 competing operations on some node in a "
-        "non-sorted order, a duplicate delivery was rejected, and a delete took part; distinct by hash.")
+RULE = ("scripts over 2-3 real kv.DB nodes (kv.Open pipelines, memkv engines, mock networks, gossip timer off, every "
+        "message delivered by the script). Main batch = the space where the full statement is proved: (A) one coherent "
+        "operation set (3 keys x foreign leaseholders {4..7} x versions 1-6, sets and deletes, >=40% equal-version/"
+        "different-leaseholder pairs) injected into every node in a different order, batching and duplication; (B) "
+        "cluster life with one creator per key: DB.Set/Delete on the creator, DB.Set with a lease option from other "
+        "nodes (forwarding), gossip rounds (reply read before or after ingestion), payload snapshots delivered late/"
+        "duplicated/never, feedback in any order or lost, back-to-back recovery; (C) B + fair gossip sweeps to "
+        "quiescence; (E) a key overwritten while feedback for its previous version is in flight, then sweeps; (D) "
+        "malformed: versions <= 0, leaseholder 0/4095, incoherent duplicates, unknown senders/leaseholders/indices. "
+        "Extra phase = the space of the known findings, each family with the only codes it may produce: two creators "
+        "of one key (G, Bd, D2), recovery split from its high-water read / two peers / restarts (F, R), unfair sweeps "
+        "on 3 nodes (U). Non-trivial = some key changed its digest at least twice on one node, a redelivery was "
+        "rejected (feedback produced) and a delete took part; distinct by hash.")
 TRUSTED = ["hook aspen/internal/kv/export_verif.go (VerifRunSingleNodeRecovery = runSingleNodeRecovery, VerifReadDigest = "
            "getDigestFromKV, VerifSupersedes, VerifLoadHighWater)",
            "driver aspen/verifh/kvdrv: real kv.Open per node over memkv and freighter mock networks; gossip payloads are "
            "the real operation server's replies; feedback captured by a harness-owned client and delivered through the "
-           "real feedback server; quiescence between steps by FIFO marker messages through the real pipeline"]
+           "real feedback server; quiescence between steps by FIFO marker messages through the real pipeline (no sleeps)"]
 ASSUMES = ["operations are coherent: one (key, version, leaseholder) names one operation (versions come from the "
-           "leaseholder's persisted counter)",
+           "leaseholder's persisted counter); injected operations never name a cluster node with a version it has not "
+           "assigned",
            "a DB.Set/Delete is atomic with respect to gossip ingestion on the same node (the window between lease "
            "allocation and persist is not modelled)",
            "multi-operation transactions through DB.OpenTx are not modelled (multi-operation gossip batches are)"]
-PARTIAL = None
-READY = False
 
 KEYS = [1, 2, 3]
-LHS = [4, 5, 6, 7]   # leaseholders of injected operations: nodes outside the driven cluster
+XKEYS = [4, 5]            # keys only injected operations use inside cluster-life scripts
+LHS = [4, 5, 6, 7]        # leaseholders of injected operations: nodes outside the driven cluster
+
+# violation codes (Mon_C06.violation_kinds) -> known-finding tag
+CODE_TAG = {11: "C06:leasepath_overwrites_other_leader", 21: "C06:leasepath_overwrites_other_leader",
+            12: "C06:recovery_overwrites_newer", 22: "C06:recovery_overwrites_newer",
+            31: "C06:restart_drops_infected", 33: "C06:sir_stops_before_all_peers"}
+# the only codes a family of the extra phase may produce
+ALLOWED = {"G": {11, 21}, "Bd": {11, 21, 33}, "D2": {11, 21}, "F": {12, 22, 31}, "R": {31}, "U": {33}}
 
 
 # --------------------------------------------------------------------------- generator
-def gen_opset(rng, n_ops=None):
+def gen_opset(rng, n_ops=None, keys=KEYS):
     """a coherent set of operations: (k, ver, lh) unique"""
     n_ops = n_ops or rng.randrange(3, 9)
     seen = {}
     tries = 0
     while len(seen) < n_ops and tries < 100:
         tries += 1
-        k = rng.choice(KEYS[:rng.choice([1, 2, 3])])
+        k = rng.choice(keys[:rng.choice([1, 2, 3])])
         ver = rng.randrange(1, 7)
         lh = rng.choice(LHS)
         if rng.random() < 0.45 and seen:
-            # equal-version different-leaseholder pair with an existing op
             k0, v0, l0 = rng.choice(list(seen))
             k, ver = k0, v0
             lh = rng.choice([x for x in LHS if x != l0])
@@ -91,81 +103,62 @@ def gen_A(rng):
     return {"nodes": nodes, "T": rng.choice([1, 1, 2]), "ops": ops, "fam": "A"}
 
 
-def rand_life_op(rng, nodes, owner, st, dual):
+def life_op(rng, nodes, owner, mode):
+    """mode: 'one' = one creator per key (guarded space), 'dual' = any node may create any key"""
     x = rng.random()
     n = rng.choice(nodes)
-    if x < 0.30:
+    if x < 0.32:
         k = rng.choice(KEYS)
-        if k not in owner:
-            owner[k] = n
-        elif not dual:
-            # only the creator touches a key no other node has heard of yet
-            if k not in st["known"].get(n, set()):
-                n = owner[k]
-        st["known"].setdefault(n, set()).add(k)
+        if mode == "one":
+            own = owner.setdefault(k, n)
+            if rng.random() < 0.25:
+                return {"op": "del", "n": own, "k": k}
+            if n != own and rng.random() < 0.8:
+                # another node writes through the creator: explicit lease option
+                return {"op": "write", "n": n, "k": k, "v": rng.randrange(1, 90), "lease": own}
+            return {"op": "write", "n": own, "k": k, "v": rng.randrange(1, 90), "lease": rng.choice([0, 0, own])}
         if rng.random() < 0.25:
             return {"op": "del", "n": n, "k": k}
-        lease = 0
-        if rng.random() < 0.12:
-            lease = rng.choice(nodes + [5])
-        return {"op": "write", "n": n, "k": k, "v": rng.randrange(1, 90), "lease": lease}
-    if x < 0.62:
+        return {"op": "write", "n": n, "k": k, "v": rng.randrange(1, 90),
+                "lease": rng.choice(nodes + [5]) if rng.random() < 0.12 else 0}
+    if x < 0.64:
         j = rng.choice([m for m in nodes if m != n])
-        # after a round both sides may know every key
-        st["known"].setdefault(j, set()).update(st["known"].get(n, set()))
-        st["known"].setdefault(n, set()).update(st["known"].get(j, set()))
         return {"op": "round", "i": n, "j": j, "late": rng.random() < 0.4}
-    if x < 0.70:
+    if x < 0.72:
         return {"op": "snap", "n": n}
-    if x < 0.78:
+    if x < 0.80:
         return {"op": "deliver", "m": rng.randrange(0, 4), "n": n}
-    if x < 0.87:
-        return {"op": "fb", "f": rng.randrange(0, 8)}
     if x < 0.90:
-        return {"op": "fball"}
+        return {"op": "fb", "f": rng.randrange(0, 8)}
     if x < 0.94:
-        return {"op": "restart", "n": n}
+        return {"op": "fball"}
     p = rng.choice([m for m in nodes if m != n])
-    y = rng.random()
-    if y < 0.5:
-        return {"op": "recover", "n": n, "p": p}
-    if y < 0.8:
-        return {"op": "recbegin", "n": n, "p": p}
-    return {"op": "recend", "n": n, "p": p}
+    return {"op": "recover", "n": n, "p": p}
 
 
-def sweeps(nodes, T, rng, fair=True):
+def sweeps(nodes, T, rng, skip=None):
     ops = []
     pairs = [(a, b) for a in nodes for b in nodes if a != b]
     for r in range(T + 3):
         ps = list(pairs)
         rng.shuffle(ps)
-        if not fair:
-            ps = [p for p in ps if p[1] != nodes[-1] and p[0] != nodes[-1]] or ps
+        if skip is not None:
+            ps = [p for p in ps if skip not in p]
         for a, b in ps:
             ops.append({"op": "round", "i": a, "j": b, "late": rng.random() < 0.3})
         ops.append({"op": "fball"})
     return ops
 
 
-def gen_B(rng, quiesce=False):
+def gen_B(rng, quiesce=False, mode="one"):
     nodes = rng.choice([[1, 2], [1, 2, 3], [1, 2, 3]])
     T = rng.choice([1, 1, 2])
-    dual = rng.random() < 0.15
-    owner, st = {}, {"known": {}}
-    ops = []
-    for _ in range(rng.randrange(5, 16) if not quiesce else rng.randrange(3, 9)):
-        o = rand_life_op(rng, nodes, owner, st, dual)
-        if quiesce and o["op"] in ("restart", "recover", "recbegin", "recend") and rng.random() < 0.7:
-            continue
-        ops.append(o)
+    owner = {}
+    ops = [life_op(rng, nodes, owner, mode) for _ in range(rng.randrange(5, 16) if not quiesce else rng.randrange(3, 10))]
     if quiesce:
-        for n in nodes:
-            for p in nodes:
-                if p != n and rng.random() < 0.1:
-                    ops.append({"op": "recend", "n": n, "p": p})
-        ops += sweeps(nodes, T, rng, fair=rng.random() < 0.8)
-    return {"nodes": nodes, "T": T, "ops": ops, "fam": "C" if quiesce else "B"}
+        ops += sweeps(nodes, T, rng)
+    fam = ("C" if quiesce else "B") if mode == "one" else "Bd"
+    return {"nodes": nodes, "T": T, "ops": ops, "fam": fam}
 
 
 def gen_E(rng):
@@ -177,17 +170,21 @@ def gen_E(rng):
     k = rng.choice(KEYS)
     ops = [{"op": "write", "n": a, "k": k, "v": rng.randrange(1, 90), "lease": 0}]
     if rng.random() < 0.3:
-        ops.append({"op": "write", "n": rng.choice(nodes), "k": rng.choice(KEYS), "v": rng.randrange(1, 90), "lease": 0})
+        k2 = rng.choice([x for x in KEYS if x != k])
+        ops.append({"op": "write", "n": a, "k": k2, "v": rng.randrange(1, 90), "lease": 0})
     nr = T + 2 + rng.randrange(0, 3)
     for _ in range(nr):
         ops.append({"op": "round", "i": a, "j": b, "late": rng.random() < 0.3})
-    # deliver part of the feedback, overwrite, deliver the rest
     idx = list(range(0, 2 * nr + 2))
     rng.shuffle(idx)
     cut = rng.randrange(0, len(idx))
     for f in idx[:cut]:
         ops.append({"op": "fb", "f": f})
-    ops.append({"op": rng.choice(["write", "write", "del"]), "n": rng.choice([a, a, b]), "k": k, "v": rng.randrange(1, 90), "lease": 0})
+    w = rng.choice([a, a, b])
+    if rng.random() < 0.3:
+        ops.append({"op": "del", "n": a, "k": k})
+    else:
+        ops.append({"op": "write", "n": w, "k": k, "v": rng.randrange(1, 90), "lease": a})
     if rng.random() < 0.5:
         for f in idx[cut:]:
             ops.append({"op": "fb", "f": f})
@@ -197,14 +194,71 @@ def gen_E(rng):
     return {"nodes": nodes, "T": T, "ops": ops, "fam": "E"}
 
 
+def malform(rng, c, shared_keys):
+    nodes = c["nodes"]
+    keys = KEYS if shared_keys else XKEYS
+    for _ in range(rng.randrange(1, 4)):
+        x = rng.random()
+        pos = rng.randrange(0, len(c["ops"]) + 1)
+        if x < 0.35:
+            b = []
+            for _ in range(rng.randrange(1, 4)):
+                d = rng.random() < 0.3
+                b.append({"k": rng.choice(keys), "ver": rng.choice([0, -1, -3, 1, 2, 2 ** 40]),
+                          "lh": rng.choice([0, 6, 7, 4095]), "del": d, "v": 0 if d else rng.randrange(1, 90)})
+            o = {"op": "inject", "n": rng.choice(nodes), "sender": rng.choice(nodes + [0, 9]), "batch": b}
+        elif x < 0.55:
+            k, ver, lh = rng.choice(keys), rng.randrange(1, 4), rng.choice(LHS)
+            b = [{"k": k, "ver": ver, "lh": lh, "del": False, "v": 11}, {"k": k, "ver": ver, "lh": lh, "del": rng.random() < 0.5, "v": 0}]
+            if not b[1]["del"]:
+                b[1]["v"] = 12
+            o = {"op": "inject", "n": rng.choice(nodes), "sender": rng.choice(nodes), "batch": b}
+        elif x < 0.7:
+            o = {"op": "write", "n": rng.choice(nodes), "k": rng.choice(XKEYS), "v": 5, "lease": rng.choice([5, 9, 4095])}
+        elif x < 0.8:
+            o = {"op": "deliver", "m": rng.choice([7, 50]), "n": rng.choice(nodes)}
+        elif x < 0.9:
+            o = {"op": "fb", "f": rng.choice([30, 99])}
+        else:
+            o = {"op": rng.choice(["write", "del", "restart", "snap"]), "n": 8, "k": 1, "v": 1, "lease": 0}
+        c["ops"].insert(pos, o)
+    return c
+
+
+def gen_D(rng):
+    base = gen_B(rng) if rng.random() < 0.5 else gen_A(rng)
+    shared = base["fam"] == "A"
+    c = malform(rng, base, shared_keys=shared)
+    c["fam"] = "D"
+    return c
+
+
+def gen_cases(rng, tier, n):
+    out = []
+    for i in range(n):
+        x = rng.random()
+        if x < 0.34:
+            out.append(gen_A(rng))
+        elif x < 0.56:
+            out.append(gen_B(rng))
+        elif x < 0.70:
+            out.append(gen_B(rng, quiesce=True))
+        elif x < 0.86:
+            out.append(gen_E(rng))
+        else:
+            out.append(gen_D(rng))
+    return out
+
+
+# ---- families of the extra phase (known-finding space)
 def gen_F(rng):
     """restart + start-up recovery from one or two peers while gossip keeps arriving"""
     nodes = [1, 2, 3] if rng.random() < 0.75 else [1, 2]
     T = rng.choice([1, 2])
-    owner, st = {}, {"known": {}}
+    owner = {}
     ops = []
     for _ in range(rng.randrange(2, 7)):
-        o = rand_life_op(rng, nodes, owner, st, False)
+        o = life_op(rng, nodes, owner, "one")
         if o["op"] in ("write", "del", "round", "fball"):
             ops.append(o)
     n = rng.choice(nodes)
@@ -216,15 +270,16 @@ def gen_F(rng):
     for p in peers[:rng.choice([1, 1, 2])]:
         ops.append({"op": "recbegin", "n": n, "p": p})
         begun.append(p)
-    for _ in range(rng.randrange(0, 4)):
+    for _ in range(rng.randrange(1, 5)):
         x = rng.random()
-        if x < 0.5:
-            i = rng.choice(peers)
-            ops.append({"op": "round", "i": i, "j": n, "late": rng.random() < 0.3})
-        elif x < 0.8:
-            ops.append({"op": "write", "n": rng.choice(peers), "k": rng.choice(KEYS), "v": rng.randrange(1, 90), "lease": 0})
+        if x < 0.45:
+            ops.append({"op": "round", "i": rng.choice(peers), "j": n, "late": rng.random() < 0.3})
+        elif x < 0.85:
+            k = rng.choice(list(owner) or KEYS)
+            own = owner.setdefault(k, rng.choice(peers))
+            ops.append({"op": "write", "n": own, "k": k, "v": rng.randrange(1, 90), "lease": 0})
         else:
-            ops.append(rand_life_op(rng, nodes, owner, st, False))
+            ops.append(life_op(rng, nodes, owner, "one"))
     rng.shuffle(begun)
     for p in begun:
         ops.append({"op": "recend", "n": n, "p": p})
@@ -241,7 +296,7 @@ def gen_G(rng):
     a, b, c = rng.sample(nodes, 3)
     ops = []
     for _ in range(rng.randrange(0, 4)):
-        ops.append({"op": "write", "n": a, "k": rng.choice([x for x in KEYS if x != k] or KEYS), "v": rng.randrange(1, 90), "lease": 0})
+        ops.append({"op": "write", "n": a, "k": rng.choice([x for x in KEYS if x != k]), "v": rng.randrange(1, 90), "lease": 0})
     ops.append({"op": "write", "n": a, "k": k, "v": rng.randrange(1, 90), "lease": 0})
     ops.append({"op": "write", "n": b, "k": k, "v": rng.randrange(1, 90), "lease": 0})
     tail = [{"op": "round", "i": b, "j": c, "late": False}, {"op": "round", "i": a, "j": b, "late": rng.random() < 0.5},
@@ -249,64 +304,48 @@ def gen_G(rng):
     if rng.random() < 0.5:
         rng.shuffle(tail)
     ops += tail
-    for _ in range(rng.randrange(0, 4)):
-        ops.append(rand_life_op(rng, nodes, {}, {"known": {}}, True))
-    if rng.random() < 0.4:
-        ops += sweeps(nodes, T, rng)
     return {"nodes": nodes, "T": T, "ops": ops, "fam": "G"}
 
 
-def gen_D(rng):
-    c = gen_B(rng) if rng.random() < 0.5 else gen_A(rng)
+def gen_R(rng):
+    """cluster life with restarts, then fair sweeps"""
+    c = gen_B(rng, quiesce=False)
     nodes = c["nodes"]
-    for _ in range(rng.randrange(1, 4)):
-        x = rng.random()
-        pos = rng.randrange(0, len(c["ops"]) + 1)
-        if x < 0.35:
-            b = []
-            for _ in range(rng.randrange(1, 4)):
-                d = rng.random() < 0.3
-                b.append({"k": rng.choice(KEYS), "ver": rng.choice([0, -1, -3, 1, 2, 2 ** 40]),
-                          "lh": rng.choice([0, 6, 7, 4095] + ([1, 2] if rng.random() < 0.1 else [])), "del": d, "v": 0 if d else rng.randrange(1, 90)})
-            o = {"op": "inject", "n": rng.choice(nodes), "sender": rng.choice(nodes + [0, 9]), "batch": b}
-        elif x < 0.55:
-            # incoherent duplicates: same (k, ver, lh), different payload, same batch or not
-            k, ver, lh = rng.choice(KEYS), rng.randrange(1, 4), rng.choice(LHS)
-            b = [{"k": k, "ver": ver, "lh": lh, "del": False, "v": 11}, {"k": k, "ver": ver, "lh": lh, "del": rng.random() < 0.5, "v": 0}]
-            if not b[1]["del"]:
-                b[1]["v"] = 12
-            o = {"op": "inject", "n": rng.choice(nodes), "sender": rng.choice(nodes), "batch": b}
-        elif x < 0.7:
-            o = {"op": "write", "n": rng.choice(nodes), "k": rng.choice(KEYS), "v": 5, "lease": rng.choice([5, 9, 4095])}
-        elif x < 0.8:
-            o = {"op": "deliver", "m": rng.choice([7, 50]), "n": rng.choice(nodes)}
-        elif x < 0.9:
-            o = {"op": "fb", "f": rng.choice([30, 99])}
-        else:
-            o = {"op": rng.choice(["write", "del", "restart", "snap"]), "n": 8, "k": 1, "v": 1, "lease": 0}
-        c["ops"].insert(pos, o)
-    c["fam"] = "D"
+    for _ in range(rng.randrange(1, 3)):
+        c["ops"].insert(rng.randrange(0, len(c["ops"]) + 1), {"op": "restart", "n": rng.choice(nodes)})
+    if rng.random() < 0.7:
+        c["ops"] += sweeps(nodes, c["T"], rng)
+    c["fam"] = "R"
     return c
 
 
-def gen_cases(rng, tier, n):
+def gen_U(rng):
+    """three nodes, sweeps that leave one node out"""
+    c = gen_B(rng, quiesce=False)
+    c["nodes"] = [1, 2, 3]
+    c["ops"] += sweeps(c["nodes"], c["T"], rng, skip=rng.choice(c["nodes"]))
+    c["fam"] = "U"
+    return c
+
+
+def gen_extra(rng, n):
     out = []
     for i in range(n):
         x = rng.random()
-        if x < 0.30:
-            out.append(gen_A(rng))
-        elif x < 0.50:
-            out.append(gen_B(rng))
-        elif x < 0.62:
-            out.append(gen_B(rng, quiesce=True))
-        elif x < 0.72:
-            out.append(gen_E(rng))
-        elif x < 0.82:
-            out.append(gen_F(rng))
-        elif x < 0.88:
+        if x < 0.2:
             out.append(gen_G(rng))
+        elif x < 0.35:
+            out.append(gen_B(rng, quiesce=rng.random() < 0.4, mode="dual"))
+        elif x < 0.45:
+            c = malform(rng, gen_B(rng), shared_keys=True)
+            c["fam"] = "D2"
+            out.append(c)
+        elif x < 0.75:
+            out.append(gen_F(rng))
+        elif x < 0.9:
+            out.append(gen_R(rng))
         else:
-            out.append(gen_D(rng))
+            out.append(gen_U(rng))
     return out
 
 
@@ -350,12 +389,15 @@ def c_step(o):
     raise ValueError(t)
 
 
+BIG = 2 ** 62
+
+
 def c_obs(d):
     nodes = []
     for n in d["nodes"]:
-        eng = clist(["REng %s %s %s %s %s %s %s" % (cN(r[0]), cbool(r[1]), cN(max(r[2], 0)) if r[2] >= 0 else cN(2 ** 62),
+        eng = clist(["REng %s %s %s %s %s %s %s" % (cN(r[0]), cbool(r[1]), cN(r[2] if r[2] >= 0 else BIG),
                                                   cN(r[3]), cZ(r[4]), cN(r[5]), cbool(r[6])) for r in n["eng"]])
-        st = clist(["Op %s %s %s %s %s" % (cN(r[0]), cZ(r[1]), cN(r[2]), cbool(r[3]), cN(r[4]) if r[4] >= 0 else cN(2 ** 62)) for r in n["st"]])
+        st = clist(["Op %s %s %s %s %s" % (cN(r[0]), cZ(r[1]), cN(r[2]), cbool(r[3]), cN(r[4] if r[4] >= 0 else BIG)) for r in n["st"]])
         nodes.append("RNode %s %s %s %s" % (cN(n["n"]), cZ(n["ctr"]), eng, st))
     fbs = []
     for f in d["fbs"]:
@@ -388,28 +430,18 @@ def nontrivial(case, r):
     outs = r.get("outs") or []
     if not outs:
         return False
-    has_del = False
-    dup_rejected = False
-    competing = False
-    prev_fb = 0
-    for o, d in zip(case["ops"], outs):
-        if len(d["fbs"]) > prev_fb:
-            dup_rejected = True
-        prev_fb = len(d["fbs"])
-        if o["op"] == "del" or (o["op"] == "inject" and any(i["del"] for i in o["batch"])):
-            has_del = True
-    # competing: some engine row changed digest twice or more over the script
+    has_del = any(o["op"] == "del" or (o["op"] == "inject" and any(i["del"] for i in o["batch"])) for o in case["ops"])
+    rejected = any(d["fbs"] for d in outs)
     hist = {}
     for d in outs:
         for n in d["nodes"]:
             for row in n["eng"]:
-                key = (n["n"], row[0])
-                h = hist.setdefault(key, [])
+                h = hist.setdefault((n["n"], row[0]), [])
                 cur = (row[4], row[5])
                 if not h or h[-1] != cur:
                     h.append(cur)
     competing = any(len(h) >= 2 for h in hist.values())
-    return has_del and dup_rejected and competing
+    return has_del and rejected and competing
 
 
 def histogram(case, r):
@@ -419,10 +451,12 @@ def histogram(case, r):
     outs = r.get("outs") or []
     if outs:
         last = outs[-1]
-        if all(not n["st"] for n in last["nodes"]):
+        if all(not n["st"] for n in last["nodes"]) and any(n["eng"] for n in last["nodes"]):
             ks.append("final_state_quiescent")
         if any(d["rc"] != 0 for d in outs):
             ks.append("op_returned_error")
+        if any(f["done"] for f in last["fbs"]):
+            ks.append("feedback_delivered")
     return ks
 
 
@@ -437,39 +471,57 @@ def neighbours(case, rng):
         c = json.loads(json.dumps(case))
         c["ops"].insert(i, json.loads(json.dumps(ops[i])))
         out.append(c)
-    nodes = case["nodes"]
-    for a in nodes:
-        for b in nodes:
-            if a != b:
-                c = json.loads(json.dumps(case))
-                c["ops"] += sweeps(nodes, eff_T(case), rng)
-                out.append(c)
-                break
-        break
+    c = json.loads(json.dumps(case))
+    c["ops"] += sweeps(case["nodes"], eff_T(case), rng)
+    out.append(c)
     return out[:60]
 
 
-_TAG_CACHE = {}
+def kinds_batch(pairs):
+    """violation codes of the Coq monitor (Mon_C06.violation_kinds) for a list of (case, result)"""
+    if not pairs:
+        return []
+    body = "Definition cs : list case_t := [ %s ].\nDefinition K := Eval vm_compute in map violation_kinds cs.\nPrint K." % \
+        "\n ; ".join(to_coq(c, r) for c, r in pairs)
+    out = coq_print(PID, COQ_IMPORTS, body, timeout=600).replace("\n", " ")
+    m = re.search(r"K\s*=\s*\[(.*)\]\s*:\s*list", out)
+    if not m:
+        raise RuntimeError("cannot evaluate violation_kinds: " + out[-500:])
+    inner = m.group(1)
+    res = []
+    for grp in re.findall(r"\[([^\[\]]*)\]", inner):
+        grp = grp.strip()
+        res.append([int(x.replace("%N", "").strip()) for x in grp.split(";")] if grp else [])
+    if len(res) != len(pairs):
+        raise RuntimeError("violation_kinds: %d results for %d cases" % (len(res), len(pairs)))
+    return res
+
+
+_K = {}
 
 
 def kinds(case, r):
-    """violation codes of the Coq monitor on this case (see Mon_C06.violation_kinds)"""
-    key = json.dumps([case.get("nodes"), case.get("T"), case.get("ops"), r.get("outs")], sort_keys=True)
-    if key in _TAG_CACHE:
-        return _TAG_CACHE[key]
-    out = coq_print(PID, COQ_IMPORTS, "Definition K := Eval vm_compute in violation_kinds (%s).\nPrint K." % to_coq(case, r))
-    m = re.search(r"K\s*=\s*\[(.*?)\]", out.replace("\n", " "))
-    ks = []
-    if m and m.group(1).strip():
-        ks = [int(x.replace("%N", "").strip()) for x in m.group(1).split(";")]
-    _TAG_CACHE[key] = ks
-    return ks
+    key = vlib.chash([case.get("nodes"), case.get("T"), case.get("ops"), r.get("outs")])
+    if key not in _K:
+        _K[key] = kinds_batch([(case, r)])[0]
+    return _K[key]
+
+
+def tags_of(case, codes):
+    fam = case.get("fam", "?")
+    out = set()
+    for k in codes:
+        if k in ALLOWED.get(fam, ()) and k in CODE_TAG:
+            out.add(CODE_TAG[k])
+        else:
+            out.add("C06:unexpected:%d:family_%s" % (k, fam))
+    return out
 
 
 def tags(case, r):
     if not r or harness_violation(case, r):
         return set()
-    return {"C06:%d" % k for k in kinds(case, r)}
+    return tags_of(case, kinds(case, r))
 
 
 def model_dump(case, r):
@@ -477,6 +529,74 @@ def model_dump(case, r):
     return coq_print(PID, COQ_IMPORTS, "Eval vm_compute in model_dump (%s)." % t)[-8000:]
 
 
+# --------------------------------------------------------------------------- extra phase
+def extra(ctx):
+    """Scripts of the known-finding space. Every violation must carry one of the codes its family
+    allows (then it is counted against the matching known finding); anything else, and every
+    model/implementation mismatch, is reported."""
+    import check
+    rng = random.Random(ctx.seed * 7907 + 11)
+    cases = gen_extra(rng, EXTRA_COUNTS.get(ctx.tier, 200))
+    res, M, V, hv, errs = ctx.evaluate(cases)
+    cov = {"cases": len(cases), "mismatches": len(M), "monitor_rejections": len(V), "codes": {}, "families": {}}
+    for c in cases:
+        cov["families"][c["fam"]] = cov["families"].get(c["fam"], 0) + 1
+    if errs:
+        rp = check.write_replay(ctx, "V2", "extra phase could not be evaluated", {}, None, {"errors": errs[:10]})
+        ctx.violations.append({"kind": "V2", "what": "extra phase evaluation errors: %s" % errs[0][:300], "replay": rp, "found_input": False})
+    for i, w in hv[:3]:
+        check.report_case_violation(ctx, cases[i], res.get(i), w)
+    codes = kinds_batch([(cases[i], res[i]) for i in V]) if V else []
+    findings = {f.get("tag"): f for f in vlib.load_findings() if f.get("property") == PID and f.get("status") == "known"}
+    best = {}
+    unexpected = []
+    for i, ks in zip(V, codes):
+        for k in ks:
+            cov["codes"][str(k)] = cov["codes"].get(str(k), 0) + 1
+        tg = tags_of(cases[i], ks)
+        if all(t in findings for t in tg):
+            for t in tg:
+                if t not in best or len(cases[i]["ops"]) < len(best[t]["ops"]):
+                    best[t] = cases[i]
+        else:
+            unexpected.append(i)
+    for t, c in best.items():
+        ctx.known_hits.append((findings[t], c))
+    for i in unexpected[:2]:
+        cur = cases[i]
+        for _ in range(8):                     # shrink, keeping the case unexpected
+            ops = cur["ops"]
+            cands = []
+            for j in range(len(ops)):
+                c2 = json.loads(json.dumps(cur))
+                del c2["ops"][j]
+                cands.append(c2)
+            if not cands:
+                break
+            r2, _, V2, hv2, _ = ctx.evaluate(cands)
+            ks2 = kinds_batch([(cands[j], r2[j]) for j in V2]) if V2 else []
+            bad = [j for j, ks in zip(V2, ks2) if not all(t in findings for t in tags_of(cands[j], ks))]
+            if not bad:
+                break
+            cur = cands[bad[0]]
+        r3, _, _, _, _ = ctx.evaluate([cur])
+        check.report_case_violation(ctx, cur, r3.get(0), "monitor ok_C06 rejects the implementation's behaviour (extra phase)")
+    if M:
+        i = M[0]
+        rp = check.write_replay(ctx, "V2", "model and implementation disagree (extra phase)", cases[i], res.get(i),
+                                {"correspondence": "corr:C06/extra#%d" % i, "mismatching_cases": len(M),
+                                 "model": model_dump(cases[i], res.get(i))})
+        ctx.violations.append({"kind": "V2", "what": "correspondence corr:C06 broke on %d extra-phase cases" % len(M),
+                               "replay": rp, "found_input": False})
+    ctx.extra_cov["extra_phase_known_finding_space"] = cov
+
+
+PARTIAL = ("Proved in full: the resolution rule and order/duplication/batching independence of ingestion, never-older for "
+           "ingestion. Proved under the single-leaseholder invariant (one creator per key) and back-to-back recovery: "
+           "local writes and recovery are joins too. Refuted without them (known findings: leaseholder path and recovery "
+           "apply without consulting the digest). The quiescence clause is refuted as stated (restart drops the in-memory "
+           "gossip store; SIR stops after T+1 redundant feedbacks from any peers); what is proved is C06_quiescent_partial.")
+READY = False
 TECHNIQUE = "Coq proof (LWW join: permutation/duplication/batching independence by induction; LTS invariant) + model/impl correspondence by vm_compute"
 DESIGN_REF = "DESIGN.md §8 C06"
 LEVEL_TEXT = "(under construction)"
